@@ -60,7 +60,7 @@ def gen(rng, tier, idx):
             kk['sched'] = {'policy': 'perm', 'seed': kk['sched']['seed'], 'perm': pm}
         ks.append(kk)
     # mapping: vary the worker count among those that induce the same chunks
-    if stage in ('mapping', 'mapping_mgr'):
+    if stage in ('mapping', 'mapping_mgr', 'otf'):
         n = scn['wp']['n_query']
         base = common.effective_chunk(n, scn['cfg']['chunk_size'], scn['cfg']['n_processors'])
         same = [p for p in range(1, 7) if common.effective_chunk(n, scn['cfg']['chunk_size'], p) == base]
@@ -121,6 +121,12 @@ def run(scn, sb):
                                % (scn['stage'], bad['k'], bad['msg'][:300])})
     else:
         d0 = outcomes[0]['digest']
+        for o in outcomes:
+            if isinstance(o['digest'], str) and o['digest'].startswith('outputs-unreadable'):
+                viol.append({'cls': 'success-without-outputs',
+                             'detail': 'stage %s returned normally under kernel %d but %s'
+                                       % (scn['stage'], o['k'], o['digest'])})
+                break
         for o in outcomes[1:]:
             if o['digest'] != d0:
                 viol.append({'cls': 'schedule-dependent-result',
